@@ -157,6 +157,13 @@ def fixed_scenarios():
             put(R), inf(R), flt(R, ["node1", "node2"]), dict(bnd(R, "node1"), fcloud=k), bnd(R, "node1"), inf(R), phase(R, 1), inf(R),
             {"op": "resync", "ip": "@a0"}, dele(R), inf(R), dict({"op": "event", "n": 0}, fcloud=0), {"op": "event", "n": 0},
             {"op": "resync", "ip": "@a0"}]}))
+    # the pods/binding call fails after the IPs were stored; the scheduler binds the SAME incarnation again (same node, other node)
+    for ri, ranges in enumerate(([], [["10.100.0.3"]], [["10.100.0.3"], ["10.100.0.6~10.100.0.7"]])):
+        for policy in (0, 1):
+            Q = mkpod("web-0", "uQ", policy=policy, ranges=ranges)
+            hs.append(("binding-fails-then-retry-%d-p%d" % (ri, policy), {"provider": False, "nodes": NODES, "conf": conf_text([POOL_A]), "ops": base + [
+                put(Q), inf(Q), flt(Q, ["node1", "node2"]), dict(bnd(Q, "node1"), fbind=1), bnd(Q, "node1"), inf(Q), bnd(Q, "node1"),
+                phase(Q, 1), inf(Q), {"op": "resync", "ip": "@a0"}]}))
     # F2: stale informer while B is bound
     A2, B2 = mkpod("web-0", "uA"), mkpod("web-0", "uB")
     hs.append(("F2-stale-lister-bind", {"provider": False, "nodes": NODES, "conf": conf_text([POOL_A]), "ops": base + [
@@ -670,7 +677,7 @@ def sticky_scenarios(rng, ctx, n):
                 return mkpod("web-%d" % j, "s%d" % uid[0], "sts", "web", policy, ranges)
             if kind == "bare":
                 return mkpod("solo-%d" % j, "s%d" % uid[0], "bare", "", policy, ranges)
-            return mkpod("api-7f9c6d-r%d" % uid[0], "s%d" % uid[0], "dp", "api", policy if kind == "dp" else 0, pool="p1" if kind == "dppool" else "")
+            return mkpod("api-7f9c6d-r%d" % uid[0], "s%d" % uid[0], "dp", "api", policy if kind == "dp" else rng.choice([0, 1, 2]), pool="p1" if kind == "dppool" else "")
         live = {}
         for step in range(rng.choice([3, 4, 6])):
             j = rng.choice([0, 1])
@@ -699,6 +706,11 @@ def sticky_scenarios(rng, ctx, n):
             if rng.random() < 0.3:
                 # the scheduler filters the new pod before the plugin's informer has seen it; a resync pass runs in between
                 ops += [put(p), flt(p, cand)] + [{"op": "resync", "ip": "@a%d" % a} for a in range(3)] + [inf(p), bnd(p, "@approved:%d" % rng.randrange(3))]
+            elif rng.random() < 0.25:
+                # a store call of the Filter (the hand-over of the reserved IP) fails once: the pod is bound only if that Filter
+                # approved a node all the same - then with the IP it was promised; the scheduler filters and binds again
+                ops += [put(p), inf(p), dict(flt(p, cand), fstore=rng.choice([0, 1])), bnd(p, "@approved:0"), flt(p, cand),
+                        bnd(p, "@approved:%d" % rng.randrange(3))]
             else:
                 ops += [put(p), inf(p), flt(p, cand), bnd(p, "@approved:%d" % rng.randrange(3))]
             if old is not None and not surge and late:
@@ -737,7 +749,7 @@ def policy_scenarios(rng, ctx, n):
                 ops.append({"op": "dp_set", "ns": "ns1", "name": app, "replicas": rng.choice([1, 2, 3])})
                 apps.append(("dp_set", app))
                 for j in range(rng.choice([1, 2, 3])):
-                    pods.append(mkpod("%s-7f9c6d-q%d" % (app, j), "d%d_%s%d" % (i, app, j), "dp", app, policy if kind == "dp" else 0,
+                    pods.append(mkpod("%s-7f9c6d-q%d" % (app, j), "d%d_%s%d" % (i, app, j), "dp", app, policy,      # a pool pod may carry an explicit policy annotation too: the pool wins (never)
                                       pool="p1" if kind == "dppool" else ""))
             else:
                 for nm in ("solo-1", "lonely"):
@@ -919,6 +931,19 @@ def routing_scenarios(rng, ctx, n):
                     if a not in used:
                         p2["Ranges"] = ranges[:1] + [[ipamgen.ip2s(a)]]
                 ops += [put(p2), inf(p2), flt(p2, nodes), bnd(p2, "@approved:%d" % rng.randrange(4))]
+        if rng.random() < 0.3:
+            # an immutable / never deployment leaves reserved IPs behind in several pools; its next pod is filtered with candidate
+            # nodes of all subnets and bound on ANY node that filter approved
+            pol = rng.choice([1, 2])
+            olds = [mkpod("api-7f9c6d-r%d" % j, "r%d_%d" % (i, j), "dp", "api", pol) for j in range(rng.choice([2, 3]))]
+            for q in olds:
+                ops += [put(q), inf(q), flt(q, [rng.choice(sorted(NODES))]), bnd(q, "@approved:0"), inf(q)]
+            for q in olds:
+                ops += [dele(q), inf(q), {"op": "event", "n": 0}]
+            for j in range(2):
+                q = mkpod("api-7f9c6d-n%d" % j, "n%d_%d" % (i, j), "dp", "api", pol)
+                ops += [put(q), inf(q), flt(q, sorted(NODES)), bnd(q, "@approved:%d" % rng.randrange(6))]
+            ctx.dist("scenario:routing-reserves-in-several-pools")
         if rng.random() < 0.35:
             # the node subnets are split by a reload after the plugin has looked up (and cached) the nodes' subnets: every pool
             # keeps one half of each of its /24s; fresh pods are then filtered and bound, nothing else changes
@@ -1049,6 +1074,99 @@ def mon_c06(h, o, nwf, keys):
 
 
 # ------------------------------------------------------------------ C05, plugin level: process death inside a section
+def reload_scenarios(rng, ctx):
+    """a reload that takes ranges away fails on its List call and is retried by the next tick; then pods ask for the
+    de-configured addresses explicitly and implicitly"""
+    hs = []
+    PA2 = {"nodeSubnets": ["10.1.0.0/24", "10.2.0.0/24"], "subnet": "10.100.0.0/24", "gateway": "10.100.0.1", "vlan": 2,
+           "ranges": [[S("10.100.0.2"), S("10.100.0.3")], [S("10.100.0.6"), S("10.100.0.7")]]}
+    PA1 = dict(PA2, ranges=[[S("10.100.0.2"), S("10.100.0.3")]])
+    for nfail in (0, 1, 2):
+        for grow in (False, True):
+            first, second = (PA1, PA2) if grow else (PA2, PA1)
+            K = mkpod("web-0", "uK", ranges=[["10.100.0.2"]])
+            ops = [{"op": "sts_set", "ns": "ns1", "name": "web", "replicas": 3}, put(K), inf(K), flt(K, ["node1"]), bnd(K, "node1"), inf(K)]
+            ops += [dict({"op": "reload", "conf": conf_text([second])}, fstore=0)] * nfail + [{"op": "reload", "conf": conf_text([second])}]
+            for j, rr in enumerate(([["10.100.0.6"]], [["10.100.0.7"]], [], [], [])):
+                p = mkpod("web-%d" % (j + 1), "uL%d" % j, ranges=rr)
+                ops += [put(p), inf(p), flt(p, ["node1", "node2"]), bnd(p, "@approved:0")]
+            hs.append(("reload-%s-after-%d-failed-lists" % ("adds-ranges" if grow else "removes-ranges", nfail),
+                       {"provider": False, "nodes": NODES, "conf": conf_text([first]), "ops": ops}))
+            ctx.dist("scenario:reload-retry")
+    return hs
+
+
+def rejected_reload_scenarios(rng, ctx):
+    """a valid configuration is in force and pods hold IPs; a reload arrives whose FIRST pool is valid but different (other node
+    subnets, gateway, vlan) and whose second pool is rejected (ranges out of order / outside the subnet / overlapping): it must be
+    rejected as a whole and change nothing - then pods are bound and the configmap is put back"""
+    hs = []
+    PA = {"nodeSubnets": ["10.1.0.0/24", "10.2.0.0/24"], "subnet": "10.100.0.0/24", "gateway": "10.100.0.1", "vlan": 2,
+          "ranges": [[S("10.100.0.2"), S("10.100.0.4")], [S("10.100.0.6"), S("10.100.0.7")]]}
+    PB = {"nodeSubnets": ["10.3.0.0/24"], "subnet": "10.101.0.0/24", "gateway": "10.101.0.1", "vlan": 0, "ranges": [[S("10.101.0.2"), S("10.101.0.3")]]}
+    PAx = dict(PA, nodeSubnets=["10.3.0.0/24"], vlan=7, ranges=[[S("10.100.0.6"), S("10.100.0.7")], [S("10.100.0.9"), S("10.100.0.9")]])
+    bad_second = [dict(PB, ranges=[[S("10.101.0.3"), S("10.101.0.3")], [S("10.101.0.2"), S("10.101.0.2")]]),       # out of order
+                  dict(PB, ranges=[[S("10.102.0.2"), S("10.102.0.3")]]),                                              # outside the subnet
+                  dict(PB, ranges=[[S("10.101.0.2"), S("10.101.0.3")], [S("10.101.0.3"), S("10.101.0.4")]])]          # overlapping
+    good = conf_text([PA, PB])
+    for bi, pb in enumerate(bad_second):
+        K = mkpod("web-0", "uK", ranges=[["10.100.0.2"]])
+        ops = [{"op": "sts_set", "ns": "ns1", "name": "web", "replicas": 3}, put(K), inf(K), flt(K, ["node1"]), bnd(K, "node1"), inf(K),
+               {"op": "reload", "conf": conf_text([PAx, pb])}]
+        for j in range(2):
+            p = mkpod("web-%d" % (j + 1), "uM%d" % j)
+            ops += [put(p), inf(p), flt(p, ["node1", "node2", "node3"]), bnd(p, "@approved:0")]
+        ops += [{"op": "reload", "conf": good}, {"op": "resync", "ip": "@a0"}]
+        p = mkpod("web-3", "uM9")
+        ops += [put(p), inf(p), flt(p, ["node1", "node2", "node3"]), bnd(p, "@approved:0"), {"op": "restart"}]
+        hs.append(("rejected-reload-%d" % bi, {"provider": False, "nodes": NODES, "conf": good, "ops": ops}))
+        ctx.dist("scenario:rejected-reload")
+    return hs
+
+
+def mon_c20_plugin(h, o, nwf, keys):
+    """a reload that is rejected changes nothing: the allocation table with the pool attributes of every IP, and the free
+    table, are what they were; what Bind writes afterwards carries the attributes of the configuration in force"""
+    out = []
+    steps = (o.get("steps") or [])[:nwf]
+    prev = None
+    cpools = conf_pools(h["conf"])
+    for si, (op, st) in enumerate(zip(h["ops"], steps)):
+        d = st.get("dump")
+        if d is None:
+            break
+        if op["op"] == "reload":
+            if st.get("res") == "ok":
+                cpools = conf_pools(op["conf"])
+            elif prev is not None:
+                out.append((lit(d["alloc"] == prev["alloc"] and d["unalloc"] == prev["unalloc"]), si, "rejected_reload_changes_nothing", []))
+        if op["op"] == "bind" and st.get("res") == "ok" and cpools is not None:
+            ok = all(len(inf) == 4 and conf_pool_of(cpools, inf[0]) is not None and [inf[1], inf[2], inf[3]] == list(conf_pool_of(cpools, inf[0])[1:4])
+                     for inf in st.get("infos") or [])
+            out.append((lit(ok), si, "bind_info_of_configuration_in_force", []))
+        prev = d
+    return out
+
+
+def mon_c09_plugin(h, o, nwf, keys):
+    """every IP a pod is bound with is configured by the configuration in force (the last one a reload reported as applied);
+    an IP whose range a reload took away is not handed out afterwards"""
+    out = []
+    steps = (o.get("steps") or [])[:nwf]
+    cpools = conf_pools(h["conf"])
+    for si, (op, st) in enumerate(zip(h["ops"], steps)):
+        if st.get("dump") is None:
+            break
+        if op["op"] == "reload" and st.get("res") == "ok":
+            cpools = conf_pools(op["conf"])
+        if op["op"] == "bind" and st.get("res") == "ok" and cpools is not None:
+            out.append((lit(all(conf_pool_of(cpools, x) is not None for x in st.get("ips") or [])), si, "bound_ip_is_configured", []))
+        if op["op"] == "reload" and st.get("res") == "ok" and cpools is not None:
+            d = st["dump"]
+            out.append((lit(all(conf_pool_of(cpools, x) is not None for x in d["unalloc"])), si, "free_table_is_the_configuration", []))
+    return out
+
+
 def crash_scenarios(rng, ctx, n):
     """a pod requesting 2-3 range lists is bound; the process dies right before the j-th object creation of the multi-IP
     allocation (for EVERY j: no rollback happens, unlike a failed creation); a new process starts (restart), resyncs, the
